@@ -13,9 +13,69 @@ from __future__ import annotations
 
 import os
 
-from lib import ch, core
+import ast
+import re
+
+from lib import apis, ch, core, gen
 
 H = os.path.join(core.VERIF, "harness", "h16_selective.py")
+
+
+def _snake(n):
+    return re.sub(r"(?<!^)(?=[A-Z])", "_", n).lower()
+
+
+def surface_diff(internal):
+    """Emitted clients of the Compute-style API (lib.apis.compute_api) under selective generation (concrete AST diff):
+    listed = {Addresses.InsertGlobal, GlobalOperations.Get}.  omit mode: only the listed RPCs (and the polling method)
+    are methods of the clients; internal mode: every client method of an unlisted RPC -- all its flavours, e.g. the
+    `_unary` one of an extended operation -- starts with an underscore and the class carries the prefix `Base`."""
+    pkg = "google.example.cp.v1"
+    listed = [f"{pkg}.Addresses.InsertGlobal", f"{pkg}.GlobalOperations.Get"]
+    cfg = {"publishing": {"library_settings": [{"version": pkg, "python_settings": {"common": {
+        "selective_gapic_generation": {"methods": listed, "generate_omitted_as_internal": internal}}}}]}}
+    fdp = apis.compute_api()[0].f
+    g = gen.generate(apis.compute_api(), parameter="transport=rest", service_yaml=cfg)
+    bad, oks = {}, []
+    for svc in fdp.service:
+        rpcs = {m.name: f"{pkg}.{svc.name}.{m.name}" in listed for m in svc.method}
+        sdir = _snake(svc.name)
+        try:
+            src = g.text(f"services/{sdir}/client.py")
+        except Exception:  # noqa: BLE001
+            src = None
+        key = f"{'internal' if internal else 'omit'}:{svc.name}"
+        if src is None:
+            if not internal and not any(rpcs.values()):
+                oks.append(key + ":not-emitted")
+            else:
+                bad[key] = f"no client emitted for {svc.name}"
+            continue
+        if not internal and not any(rpcs.values()):
+            bad[key] = f"{svc.name} has no listed RPC but a client is emitted"
+            continue
+        classes = {n.name: n for n in ast.parse(src).body if isinstance(n, ast.ClassDef)}
+        want_cls = ("Base" if internal and not all(rpcs.values()) else "") + svc.name + "Client"
+        if want_cls not in classes:
+            bad[key + ":class"] = f"client class {want_cls} missing (classes {sorted(classes)})"
+            continue
+        methods = {f.name for f in classes[want_cls].body if isinstance(f, (ast.FunctionDef, ast.AsyncFunctionDef))}
+        for rpc, is_listed in rpcs.items():
+            mine = {m for m in methods if re.fullmatch(rf"_?{_snake(rpc)}(_unary)?", m)}
+            public = {m for m in mine if not m.startswith("_")}
+            k2 = f"{key}.{rpc}"
+            if is_listed:
+                ok = _snake(rpc) in public and not (mine - public)
+            elif internal:
+                ok = ("_" + _snake(rpc)) in mine and not public
+            else:
+                ok = not mine
+            if ok:
+                oks.append(k2)
+            else:
+                bad[k2] = (f"{want_cls}: methods of RPC {rpc} ({'listed' if is_listed else 'unlisted'}) are {sorted(mine)}; "
+                           f"public ones: {sorted(public)}")
+    return oks, bad
 
 
 def body(chk: core.Check):
@@ -58,9 +118,21 @@ def body(chk: core.Check):
     chk.canary("enum-only files dropped before the enum filter (in-memory mutant)", c1["status"] == "refuted", c1.get("call", c1["status"]))
     c2 = ch.run(H, ["closure"], timeout=timeout, env=dict(env, VERIF_CANARY="no-nested", VERIF_PART="5"), jobs=1)[0]
     chk.canary("enum-typed fields not traversed (in-memory mutant)", c2["status"] == "refuted", c2.get("call", c2["status"]))
+    # emitted surface of a Compute-style API under both modes (concrete AST diff, labelled as such)
+    chk.stubs.append(gen.PANDOC_STUB_NOTE)
+    for internal in (False, True):
+        oks, bad = surface_diff(internal)
+        chk.programs += 1
+        for k in oks:
+            chk.ok("emitted-surface (concrete)", k)
+        for k, text in bad.items():
+            chk.violation("surface:" + k, text, {"kind": "surface", "internal": internal, "diff_key": k})
 
 
 def replay(chk, data):
+    if data.get("kind") == "surface":
+        _o, bad = surface_diff(data["internal"])
+        return bad.get(data["diff_key"])
     rep, detail = ch.replay_call(os.path.join(core.VERIF, data["harness"]), data["call"], data.get("env"))
     return f"{data['call']} -> {detail}" if rep else None
 
